@@ -223,6 +223,7 @@ def run(col, configs, tier):
         from rules import extra as X
         guarded(col, X.rule_mixed_base_scaling, facts)
         guarded(col, X.rule_incremented_digit_in_range, facts)
+        guarded(col, X.rule_lemire_precision_and_window, facts)
         from rules import c15
         guarded(col, c15.rule_parse_specials, facts)
         guarded(col, c15.rule_write_specials, facts)
